@@ -77,9 +77,15 @@ def split_tuple(v):
 
 def env_snapshot(env):
     """Everything later rounds must leave untouched (public accessors only)."""
-    data = copy.deepcopy(env.data(format=Format.TUPLE))
+    # (the same accessor read in both orders: an accessor that answers from what it answered
+    # last time must not get away with it)
     types = {k: (type(v).__name__, getattr(v, "precision", None), getattr(v, "unsigned", None))
              for k, v in env.data(format=Format.TYPE).items()}
+    data = copy.deepcopy(env.data(format=Format.TUPLE))
+    env.data(format=Format.TYPE)
+    data2 = env.data(format=Format.TUPLE)
+    if list(data2.keys()) != list(data.keys()):
+        data = copy.deepcopy(data2)
     units = {k: (copy.deepcopy(v.get("magnitude")), copy.deepcopy(v.get("dimensions")))
              for k, v in env.units.items()}
     sources = {}
@@ -1555,6 +1561,9 @@ class DipStoreMachine(Machine):
             # parser object
             op["prelude"] = rng.choice(["  !condition", 'x str = """\nabc', "!options", "a float = ",
                                         "$unit", "a float = 3 m m m", "@case"])
+        if rng.random() < 0.15:
+            # the parser is used as a context manager and asked to parse after its block
+            op["with_block"] = True
         if cfg["io_faults"] and rng.random() < 0.3:
             read = [c["path"] for c in out if c["via"] == "file"] + \
                 [st["path"] for st in stmts if st["k"] == "source"]
@@ -1775,6 +1784,8 @@ class DipStoreMachine(Machine):
         got, env, err = "commit", None, None
         try:
             p = DIP(base["env"], name=name) if base else DIP(name=name)
+            if op.get("with_block"):
+                p.__enter__()
             for st in all_stmts:
                 if st["k"] == "fn":
                     p.add_function(st["fname"], make_callback(st, self.stats))
@@ -1798,6 +1809,8 @@ class DipStoreMachine(Machine):
                     self.stats.probe("definitions_through_python_api")
                 else:
                     p.add_string("\n".join(DM.render(st) for st in stmts))
+            if op.get("with_block"):
+                p.__exit__(None, None, None)
             env = p.parse()
         except Exception as e:
             got, err = "abort", e
@@ -2005,6 +2018,8 @@ class DipStoreMachine(Machine):
                 yield dict(op, io_fault=None)
             if op.get("prelude"):
                 yield dict(op, prelude=None)
+            if op.get("with_block"):
+                yield dict(op, with_block=False)
             if op.get("base", -1) >= 0:
                 yield dict(op, base=-1)
             for ci, c in enumerate(ch):
